@@ -1,13 +1,16 @@
 // C17 — contract storage is confined to the contract-storage namespace and its keys are unambiguous.
 //
 // (a) dynamic confinement: every WriteSet produced by executing (i) the C15 probe-block corpus through the real
-//     ledger and (ii) a corpus of real governance / cross-chain-manager transactions contains only keys
-//     ST_STORAGE ++ <registered contract address> ++ …; after really submitting blocks the persistent state
-//     store holds contract data only under ST_STORAGE and the ledger bookkeeping keys are untouched by write sets.
+//
+//	ledger and (ii) a corpus of real governance / cross-chain-manager transactions contains only keys
+//	ST_STORAGE ++ <registered contract address> ++ …; after really submitting blocks the persistent state
+//	store holds contract data only under ST_STORAGE and the ledger bookkeeping keys are untouched by write sets.
+//
 // (b) key-schema model: extract.go extracts every ConcatKey construction from the current source on every run;
-//     model.go searches the product automaton of every pair of record kinds of the same contract (and of every
-//     kind with itself) for a common key; every model collision is concretised and replayed through the real
-//     storage helpers (bindings.go) before it may become a VIOLATION; unreplayable ones are `unconfirmed`.
+//
+//	model.go searches the product automaton of every pair of record kinds of the same contract (and of every
+//	kind with itself) for a common key; every model collision is concretised and replayed through the real
+//	storage helpers (bindings.go) before it may become a VIOLATION; unreplayable ones are `unconfirmed`.
 package main
 
 import (
@@ -338,10 +341,10 @@ func main() {
 	type pairRes struct {
 		A, B    string
 		Class   string
-		Word    string `json:"colliding_key_suffix_hex,omitempty"`
+		Word    string   `json:"colliding_key_suffix_hex,omitempty"`
 		ParamsA []string `json:"params_a,omitempty"`
 		ParamsB []string `json:"params_b,omitempty"`
-		Note    string `json:"note,omitempty"`
+		Note    string   `json:"note,omitempty"`
 		SitesA  []string `json:"sites_a,omitempty"`
 		SitesB  []string `json:"sites_b,omitempty"`
 	}
@@ -430,7 +433,7 @@ func main() {
 					r.Violation("key-collision:"+cname+":"+kindName(A)+"|"+kindName(B), map[string]any{
 						"contract": cname, "kind_a": A.ID(), "kind_b": B.ID(), "sites_a": A.Sites, "sites_b": B.Sites,
 						"params_a_hex": pr.ParamsA, "params_b_hex": pr.ParamsB, "storage_key_hex": hex.EncodeToString([]byte(key)),
-						"replay": "put record A through its real helper, then record B through its real helper: the same storage key is written and A's value is overwritten",
+						"replay":            "put record A through its real helper, then record B through its real helper: the same storage key is written and A's value is overwritten",
 						"value_after_A_hex": hex.EncodeToString([]byte(v1)), "value_after_B_hex": hex.EncodeToString([]byte(v2)),
 						"self_collision": self})
 				} else {
